@@ -12,6 +12,7 @@ package main
 // statement and asks the library about the *effective* protos.
 
 import (
+	"io"
 	"bytes"
 	"crypto/ecdsa"
 	"crypto/elliptic"
@@ -994,6 +995,10 @@ func (w *c19World) build(p *c19Plan, idx int) {
 	case "-", "":
 	case "E":
 		args = append(args, "-trusted_roots=")
+	case "comma", "blank", "blanks-and-comma":
+		// a list made of separators and white space only names no readable bundle: a usage error, not "flag not given"
+		args = append(args, "-trusted_roots="+map[string]string{"comma": ",", "blank": " ", "blanks-and-comma": " , "}[p.fRoots])
+		rootsBad, rootsTok = true, "bad"
 	default:
 		fRoots = resolve(strings.Split(p.fRoots, ","))
 		args = append(args, "-trusted_roots="+strings.Join(w.realPaths(fRoots), ","))
@@ -1284,6 +1289,19 @@ func (w *c19World) run(p *c19Plan) {
 	cmd.Env = []string{"HTTPS_PROXY=" + c19DeadProxy, "HTTP_PROXY=" + c19DeadProxy, "https_proxy=" + c19DeadProxy, "http_proxy=" + c19DeadProxy, "NO_PROXY=", "no_proxy=", "HOME=" + w.dir, "PATH=/usr/bin:/bin"}
 	if p.stdin != nil {
 		cmd.Stdin = bytes.NewReader(p.stdin)
+		if len(p.stdin) > 64 && len(p.args)%3 == 0 {
+			// a producer that delivers the quote in two writes with a pause in between (a pipe from a slow tool): the quote is what
+			// arrives until end of input
+			pr, pw := io.Pipe()
+			data := p.stdin
+			go func() {
+				pw.Write(data[:len(data)/2])
+				time.Sleep(150 * time.Millisecond)
+				pw.Write(data[len(data)/2:])
+				pw.Close()
+			}()
+			cmd.Stdin = pr
+		}
 	}
 	var stderr bytes.Buffer
 	cmd.Stderr = &stderr
@@ -1386,7 +1404,7 @@ func c19Dims() []c19Dim {
 		{"verbose", []string{"0", "2"}, 2},
 		{"c.paths", []string{"-", "good", "good,other", "other", "garbage", "missing", "other+good", "good+other"}, 3},
 		{"c.bundles", []string{"-", "good", "garbage", "other+good"}, 2},
-		{"f.roots", []string{"-", "good", "E", "other,good", "other", "garbage", "missing", "other+good", "good+other"}, 4},
+		{"f.roots", []string{"-", "good", "E", "other,good", "other", "garbage", "missing", "other+good", "good+other", "comma", "blank", "blanks-and-comma"}, 4},
 		{"c.crl", []string{"0", "1"}, 1},
 		{"c.gc", []string{"0", "1"}, 1},
 		{"f.crl", []string{"-", "false", "E", "true", "bad"}, 3},
